@@ -6,6 +6,7 @@ import (
 	"math"
 	"math/bits"
 	"math/cmplx"
+	"runtime"
 	"sync"
 
 	R "github.com/Trisia/randomness"
@@ -69,7 +70,27 @@ func evalIgW(cs igCase) (bad bool, errOverTol float64, msg string, want float64)
 	return false, errOverTol, fmt.Sprintf("Igamc(%v,%v)=%.17g exact %.17g", a, cs.X, got, want), want
 }
 
+// nearShapePrelude: before anything else in the process, every shape is visited once through a value that
+// is NOT the half-integer itself but within a few 1e-9 of it (a legal shape a > 0 whose own result is
+// not judged): anything remembered per shape with a tolerance would be seeded with the wrong value.
+func nearShapePrelude(c *ev.Ctx) {
+	n := 0
+	for k := 1; k <= 10000; k++ {
+		h := float64(k) / 2
+		for _, d := range []float64{3e-9, -2e-9} {
+			a := h + d
+			if k%2 == 0 {
+				a = math.Nextafter(h, h+d)
+			}
+			guard(func() { _ = R.Igamc(a, h) })
+			n++
+		}
+	}
+	c.Count("near_half_integer_shape_calls_made_first", int64(n))
+}
+
 func runC06(c *ev.Ctx) {
+	nearShapePrelude(c)
 	c.Rule = "each case = (a = k/2, x [, x' > x]); Igamc compared with the exact finite sum for Q(k/2,x) evaluated in 160-bit arithmetic (erfc for the half-integer head), tolerance 1e-12+1e-14a; plus exact-1 for x<=0, range [0,1], monotone in x up to tolerance; plus a concurrent hammer (8 goroutines, two per shape, shapes in arithmetic families with strides 1..2048, every result bit-identical to the solo result); non-trivial = exact Q in (1e-300, 1-1e-15) or x<=0 probe; distinct = distinct (k, x bits)"
 	c.Assumptions = []string{"math.Erfc correct to ~1 ulp", "math/big arithmetic", "the exact finite-sum identities for integer and half-integer shapes"}
 	seed := uint64(c.Seed)
@@ -364,6 +385,42 @@ func runC12(c *ev.Ctx) {
 		}
 		cases[i] = tqCase{qs}
 	}
+	// very long lists: 10^6, 10^8 (and, thorough, 1.1*10^9: the sums of squares exceed 2^63/10) values almost all in
+	// one interval; freshly allocated zeros cost no memory until read
+	{
+		sizes := []int{1000000, 100000000}
+		if c.Thorough() && bits.UintSize == 64 && !c.Lite() {
+			sizes = append(sizes, 1100000000)
+		}
+		if c.Lite() {
+			sizes = sizes[:1]
+		}
+		for _, n := range sizes {
+			qs := make([]float64, n)
+			extra := []float64{0.15, 0.25, 0.95, 1.0, 0.5}
+			for j, v := range extra {
+				qs[(j+1)*(n/7)] = v
+			}
+			F := make([]int64, 10)
+			F[0] = int64(n - len(extra))
+			for _, v := range extra {
+				F[oracle.Bin(v)]++
+			}
+			want := oracle.UniformityFromCounts(F, n)
+			var got float64
+			if p, m := guard(func() { got = detect.ThresholdQ(qs) }); p {
+				c.Violation(fmt.Sprintf("thresholdQ:len=%d:panic", n), m, "thresholdq", nil)
+				continue
+			}
+			c.Eval(ev.HashStr(fmt.Sprintf("hugelist%d", n)), true)
+			c.Count("very_long_lists", 1)
+			if diff(got, want) > 1e-12 {
+				c.Violation(fmt.Sprintf("thresholdQ:len=%d", n), fmt.Sprintf("ThresholdQ of %d values = %.17g, reference %.17g", n, got, want), "thresholdq", nil)
+			}
+			qs = nil
+			runtime.GC()
+		}
+	}
 	// every list length 1..400 once (a length is a parameter too)
 	for n := 1; n <= 400; n++ {
 		r := gen.NewRng(gen.Mix(seed, 1214, uint64(n)))
@@ -407,13 +464,24 @@ func runC12(c *ev.Ctx) {
 // ---------------- C19 ----------------
 
 type fftCase struct {
-	LogN int    `json:"log_n"`
-	Kind string `json:"kind"` // impulse, tone, random, pm1, roundtrip
-	Pos  int    `json:"pos"`
-	Seed uint64 `json:"seed"`
+	LogN  int     `json:"log_n"`
+	Kind  string  `json:"kind"` // impulse, tone, random, pm1, roundtrip
+	Pos   int     `json:"pos"`
+	Seed  uint64  `json:"seed"`
+	Scale float64 `json:"scale,omitempty"` // every entry multiplied by this (tiny / huge magnitudes); 0 = 1
 }
 
 func fftInput(cs fftCase) []complex128 {
+	x := fftInputUnscaled(cs)
+	if cs.Scale != 0 && cs.Scale != 1 {
+		for i := range x {
+			x[i] = complex(real(x[i])*cs.Scale, imag(x[i])*cs.Scale)
+		}
+	}
+	return x
+}
+
+func fftInputUnscaled(cs fftCase) []complex128 {
 	N := 1 << uint(cs.LogN)
 	x := make([]complex128, N)
 	r := gen.NewRng(cs.Seed)
@@ -437,13 +505,26 @@ func fftInput(cs fftCase) []complex128 {
 	return x
 }
 
+// norm2 is the Euclidean norm, computed relative to the largest entry so that neither tiny nor huge
+// magnitudes underflow / overflow in the squares.
 func norm2(x []complex128) float64 {
+	m := 0.0
+	for _, v := range x {
+		m = math.Max(m, math.Max(math.Abs(real(v)), math.Abs(imag(v))))
+	}
+	if m == 0 || math.IsInf(m, 0) || math.IsNaN(m) {
+		return m
+	}
 	s := 0.0
 	for _, v := range x {
-		s += real(v)*real(v) + imag(v)*imag(v)
+		re, im := real(v)/m, imag(v)/m
+		s += re*re + im*im
 	}
-	return math.Sqrt(s)
+	return m * math.Sqrt(s)
 }
+
+// cabs is |z| without intermediate overflow/underflow.
+func cabs(z complex128) float64 { return math.Hypot(real(z), imag(z)) }
 
 const fftTol = 1e-9
 
@@ -452,6 +533,10 @@ func evalFFT(cs fftCase) (bad bool, worst float64, msg string) {
 	N := 1 << uint(cs.LogN)
 	x := fftInput(cs)
 	nrm := norm2(x)
+	sc := cs.Scale
+	if sc == 0 {
+		sc = 1
+	}
 	var f fft.FFT
 	var err error
 	if p, m := guard(func() { f, err = fft.New(N) }); p {
@@ -470,7 +555,7 @@ func evalFFT(cs fftCase) (bad bool, worst float64, msg string) {
 		return true, math.Inf(1), fmt.Sprintf("Transform returned %d values", len(out))
 	}
 	errAt := func(k int, want complex128) {
-		d := cmplx.Abs(out[k]-want) / nrm
+		d := cabs(out[k]-want) / nrm
 		if math.IsNaN(d) {
 			d = math.Inf(1)
 		}
@@ -483,31 +568,34 @@ func evalFFT(cs fftCase) (bad bool, worst float64, msg string) {
 	case "impulse":
 		for k := 0; k < N; k++ {
 			s, c := math.Sincos(-2 * math.Pi * float64((cs.Pos*k)%N) / float64(N))
-			errAt(k, complex(c, s))
+			errAt(k, complex(c*sc, s*sc))
 		}
 	case "tone":
 		for k := 0; k < N; k++ {
 			if k == cs.Pos {
-				errAt(k, complex(float64(N), 0))
+				errAt(k, complex(float64(N)*sc, 0))
 			} else {
 				errAt(k, 0)
 			}
 		}
 	default:
-		// independent FFT for all bins, direct summation for all (small N) or seeded bins
-		ref := oracle.FFT(x)
+		// independent FFT for all bins, direct summation for all (small N) or seeded bins; the
+		// references work on the unscaled vector (the transform is linear) and are scaled afterwards
+		xu := fftInputUnscaled(cs)
+		scl := func(z complex128) complex128 { return complex(real(z)*sc, imag(z)*sc) }
+		ref := oracle.FFT(xu)
 		for k := 0; k < N; k++ {
-			errAt(k, ref[k])
+			errAt(k, scl(ref[k]))
 		}
 		r := gen.NewRng(cs.Seed ^ 0xABCDEF)
 		if cs.LogN <= 10 {
 			for k := 0; k < N; k++ {
-				errAt(k, oracle.NaiveDFTBin(x, k))
+				errAt(k, scl(oracle.NaiveDFTBin(xu, k)))
 			}
 		} else {
 			for j := 0; j < 24; j++ {
 				k := r.Intn(N)
-				errAt(k, oracle.NaiveDFTBin(x, k))
+				errAt(k, scl(oracle.NaiveDFTBin(xu, k)))
 			}
 		}
 	}
@@ -517,7 +605,7 @@ func evalFFT(cs fftCase) (bad bool, worst float64, msg string) {
 		return true, math.Inf(1), m
 	}
 	for j := range x {
-		d := cmplx.Abs(back[j]-x[j]) / nrm
+		d := cabs(back[j]-x[j]) / nrm
 		if math.IsNaN(d) {
 			d = math.Inf(1)
 		}
@@ -543,7 +631,7 @@ func runC19(c *ev.Ctx) {
 		r := gen.NewRng(gen.Mix(seed, 1919, uint64(lg)))
 		if lg <= 10 && (lg <= 8 || c.Thorough()) {
 			for p := 0; p < N; p++ {
-				cases = append(cases, fftCase{lg, "impulse", p, 0}, fftCase{lg, "tone", p, 0})
+				cases = append(cases, fftCase{LogN: lg, Kind: "impulse", Pos: p}, fftCase{LogN: lg, Kind: "tone", Pos: p})
 			}
 		} else {
 			k := 24
@@ -551,16 +639,23 @@ func runC19(c *ev.Ctx) {
 				k = 6
 			}
 			for j := 0; j < k; j++ {
-				cases = append(cases, fftCase{lg, "impulse", r.Intn(N), 0}, fftCase{lg, "tone", r.Intn(N), 0})
+				cases = append(cases, fftCase{LogN: lg, Kind: "impulse", Pos: r.Intn(N)}, fftCase{LogN: lg, Kind: "tone", Pos: r.Intn(N)})
 			}
-			cases = append(cases, fftCase{lg, "impulse", N - 1, 0}, fftCase{lg, "impulse", N / 2, 0}, fftCase{lg, "tone", N - 1, 0}, fftCase{lg, "tone", N / 2, 0}, fftCase{lg, "tone", 1, 0})
+			cases = append(cases, fftCase{LogN: lg, Kind: "impulse", Pos: N - 1}, fftCase{LogN: lg, Kind: "impulse", Pos: N / 2}, fftCase{LogN: lg, Kind: "tone", Pos: N - 1}, fftCase{LogN: lg, Kind: "tone", Pos: N / 2}, fftCase{LogN: lg, Kind: "tone", Pos: 1})
 		}
 		reps := 6
 		if lg > 16 {
 			reps = 2
 		}
 		for j := 0; j < reps; j++ {
-			cases = append(cases, fftCase{lg, "random", 0, gen.Mix(seed, uint64(lg), uint64(j), 1)}, fftCase{lg, "pm1", 0, gen.Mix(seed, uint64(lg), uint64(j), 2)})
+			cases = append(cases, fftCase{LogN: lg, Kind: "random", Seed: gen.Mix(seed, uint64(lg), uint64(j), 1)}, fftCase{LogN: lg, Kind: "pm1", Seed: gen.Mix(seed, uint64(lg), uint64(j), 2)})
+		}
+		// the transform is linear: tiny and huge magnitudes (far from 1, but normal numbers throughout)
+		if lg <= 14 {
+			for j, scale := range []float64{1e-170, 1e-250, 1e-290, 1e150, 1e250, 3e-155} {
+				kind := []string{"random", "pm1", "impulse", "tone"}[(j+lg)%4]
+				cases = append(cases, fftCase{LogN: lg, Kind: kind, Pos: r.Intn(N), Seed: gen.Mix(seed, uint64(lg), uint64(j), 3), Scale: scale})
+			}
 		}
 	}
 	if c.Lite() {
